@@ -41,7 +41,7 @@ impl CalcSpec {
 
 /// per-entry frame size for CalcSpec::Table: a multiple of 8 in [8, 128], distinct for nearby pcs
 pub fn table_value(k: u16, pc: usize) -> u16 {
-    (8 * (1 + ((pc as u64 * 7 + k as u64) % 16))) as u16
+    (8 * (1 + ((pc as u64).wrapping_mul(7).wrapping_add(k as u64) % 16))) as u16
 }
 
 #[derive(Clone, Debug)]
